@@ -543,6 +543,22 @@ class Body:
                     out.append(f"{short_name(c.callee)}(" + ",".join(self.root(a) for a in c.args) + ")")
         return out
 
+    def tuple_field_def_roots(self, root):
+        """For a root that stopped at a multiply-defined tuple temporary (`_773.1`: a
+        `let (a, b) = if .. {(x, y)} else {(x', y')}` join), the roots of that field in every
+        aggregate definition of the tuple.  None if `root` does not have that shape."""
+        m = re.fullmatch(r"_(\d+)\.(\d+)", root)
+        if not m:
+            return None
+        out = []
+        for d in self.defs.get(int(m.group(1)), []):
+            if d[0] == "stmt" and d[4][0] == "agg" and d[4][1] == "tuple" and \
+                    int(m.group(2)) < len(d[4][4]):
+                out.append(self.root(d[4][4][int(m.group(2))]))
+            else:
+                return None
+        return out or None
+
     def describe(self):
         return f"{self.name} ({self.file}:{self.line})"
 
